@@ -283,5 +283,34 @@ func genC13Purge(g *Gen) error {
 		}
 		g.StrList(f[2], s)
 	}
+	// ---- the store side of the drops (engine/engine_ddl.go, engine/engine.go) ---------------------
+	for _, f := range [][3]string{
+		{"engine/engine_ddl.go", "EngineImpl.DropRetentionPolicy", "steps_engineDropRetentionPolicy"},
+		{"engine/engine_ddl.go", "EngineImpl.DropMeasurement", "steps_engineDropMeasurement"},
+		{"engine/engine.go", "deleteDataAndWalPath", "steps_deleteDataAndWalPath"},
+		{"engine/engine.go", "EngineImpl.deleteShardsAndIndexes", "steps_deleteShardsAndIndexes"},
+	} {
+		s, _, err := stmts(f[0], f[1])
+		if err != nil {
+			return err
+		}
+		g.StrList(f[2], s)
+	}
+	// DeleteDatabase: the calls after the partition has been taken offline, in source order
+	dd, err := g.Func("engine/engine_ddl.go", "EngineImpl.DeleteDatabase")
+	if err != nil {
+		return err
+	}
+	var ddCalls []string
+	ast.Inspect(dd.Body, func(n ast.Node) bool {
+		if c, ok := n.(*ast.CallExpr); ok {
+			s := g.Src(c.Fun)
+			if strings.HasPrefix(s, "e.") || strings.HasPrefix(s, "dbPTInfo.") || s == "deleteDataAndWalPath" || strings.HasPrefix(s, "colstore.") {
+				ddCalls = append(ddCalls, s)
+			}
+		}
+		return true
+	})
+	g.StrList("calls_engineDeleteDatabase", ddCalls)
 	return nil
 }
